@@ -7,7 +7,7 @@ import warnings
 warnings.filterwarnings("ignore", category=SyntaxWarning)
 
 from .astutil import FUNC_TYPES, dotted, norm
-from .canon import canonicalize
+from .canon import canonicalize, unstable_attrs
 
 CANONICAL = os.environ.get("MXSA_RAW") != "1"
 
@@ -200,6 +200,8 @@ class Repo:
                 modname = modname[: -len(".__init__")]
             mi = ModuleInfo(modname, path, rel, src, tree)
             self.modules[modname] = mi
+        self.unstable_attrs = unstable_attrs([m.tree for m in self.modules.values()])
+        for mi in self.modules.values():
             self._index_module(mi)
         self.digest = h.hexdigest()
         self.n_files = len(files)
@@ -228,7 +230,7 @@ class Repo:
                 kind = "nested"
             else:
                 kind = "func"
-            aliases = canonicalize(fn) if CANONICAL else {}
+            aliases = canonicalize(fn, self.unstable_attrs) if CANONICAL else {}
             fi = FuncInfo(fn.name, key, fn, cls, mi, kind, outer)
             fi.aliases = aliases
             mi.all_funcs.append(fi)
